@@ -119,4 +119,7 @@ MUTANTS = [
          replace="raise pjrpc.exceptions.InvalidParamsError(data=f\"method '{method_name}' not found\")", expect='ERRMAP'),
     dict(name='keep-error-replaced', file='pjrpc/server/dispatcher.py', nth=0,
          find='            error = e\n', replace='            error = pjrpc.exceptions.ServerError()\n', expect='VERBATIM'),
+    dict(name='eager-format-of-caught-exception', file='pjrpc/server/dispatcher.py', nth=0,
+         find='logger.exception("method unhandled exception %s(%r): %r", method_name, params, e)',
+         replace='logger.exception(f"method unhandled exception {method_name}({params!r}): {e!r}")', expect='ERRMAP'),
 ]
